@@ -55,18 +55,17 @@ pub(super) fn execute_distinct<'a, S: GraphSnapshot + 'a>(
     let input_iter = execute_plan(snapshot, input, params);
     let mut seen = std::collections::HashSet::new();
     PlanIterator::Dynamic(Box::new(input_iter.filter(move |result| {
-        if let Ok(row) = result {
-            let key = row
-                .columns()
-                .iter()
-                .map(|(_, v)| format!("{:?}", v))
-                .collect::<Vec<_>>()
-                .join(",");
-            if seen.insert(key) {
-                return true;
-            }
-        }
-        false
+        // Errors from the input must reach the caller; only rows are deduplicated.
+        let Ok(row) = result else {
+            return true;
+        };
+        let key = row
+            .columns()
+            .iter()
+            .map(|(_, v)| format!("{:?}", v))
+            .collect::<Vec<_>>()
+            .join(",");
+        seen.insert(key)
     })))
 }
 
@@ -142,18 +141,17 @@ pub(super) fn execute_union<'a, S: GraphSnapshot + 'a>(
     } else {
         let mut seen = std::collections::HashSet::new();
         PlanIterator::Dynamic(Box::new(chained.filter(move |result| {
-            if let Ok(row) = result {
-                let key = row
-                    .columns()
-                    .iter()
-                    .map(|(_, v)| format!("{:?}", v))
-                    .collect::<Vec<_>>()
-                    .join(",");
-                if seen.insert(key) {
-                    return true;
-                }
-            }
-            false
+            // Errors from either branch must reach the caller; only rows are deduplicated.
+            let Ok(row) = result else {
+                return true;
+            };
+            let key = row
+                .columns()
+                .iter()
+                .map(|(_, v)| format!("{:?}", v))
+                .collect::<Vec<_>>()
+                .join(",");
+            seen.insert(key)
         })))
     }
 }
